@@ -13,6 +13,7 @@ from .common import MachineryError, scratch
 _solver_log = []
 _solver_lock = threading.Lock()
 _installed = [False]
+FAIL_CBC = [False]           # fault injection: CBC raises SolverError at run time (the library must fall back to GLPK)
 
 
 def install_solver_probe():
@@ -23,6 +24,10 @@ def install_solver_probe():
     orig = cp.Problem.solve
 
     def solve(self, *a, **kw):
+        if FAIL_CBC[0] and str(kw.get("solver")) == "CBC":
+            with _solver_lock:
+                _solver_log.append((threading.get_ident(), "CBC(failed)"))
+            raise cp.SolverError("injected by the harness: CBC fails at run time")
         try:
             return orig(self, *a, **kw)
         finally:
@@ -34,14 +39,17 @@ def install_solver_probe():
 
 @contextlib.contextmanager
 def backend(name):
-    """'CBC': as installed.  'GLPK_MI': make the library's own `import cylp` fail -> its fallback branch."""
+    """'CBC': as installed.  'GLPK_MI': make the library's own `import cylp` fail -> its fallback branch.
+    'CBC_FAILS': cylp imports, but the CBC solve raises cvxpy's SolverError (injected in the harness's probe)."""
     saved = sys.modules.get("cylp", "absent")
     saved_sub = {k: v for k, v in sys.modules.items() if k.startswith("cylp.")}
     if name == "GLPK_MI":
         sys.modules["cylp"] = None
+    FAIL_CBC[0] = (name == "CBC_FAILS")
     try:
         yield
     finally:
+        FAIL_CBC[0] = False
         if name == "GLPK_MI":
             if saved == "absent":
                 sys.modules.pop("cylp", None)
